@@ -257,6 +257,17 @@ func (c *Ctx) execInstr(in ssa.Instruction, st *State) {
 				key := c.idxConst(0)
 				taken := sEq(v.F[0].S, c.intConst(big.NewInt(0), types.Typ[types.Int]))
 				st.over[name] = c.define("gc", sort, "(store "+m+" "+key+" "+sOr("(select "+m+" "+key+")", taken)+")")
+				// ... and in ctxPolledLive(0) what the latest poll answered: set when it answered
+				// "not cancelled". Rules make it stale again (assigns ctxPolledLive) for calls
+				// during which a cancellation cuts the work short.
+				gl := c.P.CS.Ghosts["ctxPolledLive"]
+				if gl == nil {
+					gl = &GhostDecl{Kind: "field", Name: "ctxPolledLive", Params: []Param{{"x", "int"}}, Ret: "bool"}
+					c.P.CS.Ghosts["ctxPolledLive"] = gl
+				}
+				lname := "G|ctxPolledLive"
+				c.registerMap(lname, c.ghostMapSort(gl))
+				st.over[lname] = c.define("gl", c.ghostMapSort(gl), "(store "+c.lookup(st, lname)+" "+key+" "+sNot(taken)+")")
 				c.set(x, v)
 				return
 			}
